@@ -1,0 +1,207 @@
+//go:build verif
+
+// Machine-checked contracts for package barcode (comment-only; read by /verif/govc).
+package barcode
+
+// ---- interface contract: what Scale may assume about ANY Barcode (library type or caller supplied):
+// the observers are pure, total functions of the barcode value.
+//@ func iface barcode.Barcode.Bounds
+//@   pure
+//@ func iface barcode.Barcode.At
+//@   pure
+//@ func iface barcode.Barcode.Metadata
+//@   pure
+//@ func iface barcode.Barcode.Content
+//@   pure
+//@ func iface barcode.Barcode.ColorModel
+//@   pure
+//@ func iface barcode.BarcodeIntCS.CheckSum
+//@   pure
+//@ func iface barcode.BarcodeColor.ColorScheme
+//@   pure
+
+//@ define srcW(bc Barcode) int = bc.Bounds().Max.X - bc.Bounds().Min.X
+//@ define srcH(bc Barcode) int = bc.Bounds().Max.Y - bc.Bounds().Min.Y
+//@ define boundsOK(bc Barcode) bool = -1073741824 <= bc.Bounds().Min.X && bc.Bounds().Min.X < bc.Bounds().Max.X && bc.Bounds().Max.X <= 1073741824
+//@    && -1073741824 <= bc.Bounds().Min.Y && bc.Bounds().Min.Y < bc.Bounds().Max.Y && bc.Bounds().Max.Y <= 1073741824
+
+// the scaledBarcode object behind a result of Scale (either wrapper type; intCSscaledBC embeds scaledBarcode first)
+//@ define sb(r Barcode) *scaledBarcode = asptr(r, "*scaledBarcode")
+//@ define isScaled(r Barcode) bool = typeis(r, "*scaledBarcode") || typeis(r, "*intCSscaledBC")
+
+// ---- the pixel function of a 2-D scaled barcode
+//@ func scale2DCode$1
+//@   requires factor >= 1 && offsetX >= 0 && offsetY >= 0 && bc != nil
+//@   ensures (x < offsetX || y < offsetY || (x-offsetX)/factor >= orgWidth || (y-offsetY)/factor >= orgHeight) ==> result == fill
+//@   ensures !(x < offsetX || y < offsetY || (x-offsetX)/factor >= orgWidth || (y-offsetY)/factor >= orgHeight) ==> result == bc.At((x-offsetX)/factor, (y-offsetY)/factor)
+
+// ---- and of a 1-D one (full height)
+//@ func scale1DCode$1
+//@   requires factor >= 1 && offsetX >= 0 && bc != nil
+//@   ensures (x < offsetX || (x-offsetX)/factor >= orgWidth) ==> result == fill
+//@   ensures !(x < offsetX || (x-offsetX)/factor >= orgWidth) ==> result == bc.At((x-offsetX)/factor, 0)
+
+//@ func newScaledBC
+//@   requires wrapped != nil
+//@   ensures isScaled(result) && fresh(result)
+//@   ensures typeis(result, "*intCSscaledBC") <==> implements(wrapped, "BarcodeIntCS")
+//@   ensures sb(result).wrapped == wrapped && sb(result).wrapperFunc == wrapperFunc && sb(result).rect == rect
+
+// f is the largest integer factor that fits both dimensions; offsets centre the block grid.
+//@ func scale2DCode
+//@   requires bc != nil && boundsOK(bc) && 1 <= width && width <= 1073741824 && 1 <= height && height <= 1073741824
+//@   ensures (result1 != nil) <==> (width < srcW(bc) || height < srcH(bc))
+//@   ensures (result1 != nil) <==> (result0 == nil)
+//@   ensures result1 == nil ==> isScaled(result0) && fresh(result0) && sb(result0).wrapped == bc
+//@   ensures result1 == nil ==> (typeis(result0, "*intCSscaledBC") <==> implements(bc, "BarcodeIntCS"))
+//@   ensures result1 == nil ==> sb(result0).rect.Min.X == 0 && sb(result0).rect.Min.Y == 0 && sb(result0).rect.Max.X == width && sb(result0).rect.Max.Y == height
+//@   ensures result1 == nil ==> sb(result0).wrapperFunc.fn == funcid("scale2DCode$1")
+//@   ensures result1 == nil ==> captured(sb(result0).wrapperFunc, "scale2DCode$1", "bc") == bc && captured(sb(result0).wrapperFunc, "scale2DCode$1", "fill") == fill
+//@   ensures result1 == nil ==> captured(sb(result0).wrapperFunc, "scale2DCode$1", "orgWidth") == srcW(bc) && captured(sb(result0).wrapperFunc, "scale2DCode$1", "orgHeight") == srcH(bc)
+//@   ensures#factor result1 == nil ==> captured(sb(result0).wrapperFunc, "scale2DCode$1", "factor") >= 1
+//@      && captured(sb(result0).wrapperFunc, "scale2DCode$1", "factor") * srcW(bc) <= width
+//@      && captured(sb(result0).wrapperFunc, "scale2DCode$1", "factor") * srcH(bc) <= height
+//@      && ((captured(sb(result0).wrapperFunc, "scale2DCode$1", "factor") + 1) * srcW(bc) > width || (captured(sb(result0).wrapperFunc, "scale2DCode$1", "factor") + 1) * srcH(bc) > height)
+//@   ensures#offsets result1 == nil ==> captured(sb(result0).wrapperFunc, "scale2DCode$1", "offsetX") == (width - srcW(bc) * captured(sb(result0).wrapperFunc, "scale2DCode$1", "factor")) / 2
+//@      && captured(sb(result0).wrapperFunc, "scale2DCode$1", "offsetY") == (height - srcH(bc) * captured(sb(result0).wrapperFunc, "scale2DCode$1", "factor")) / 2
+
+//@ func scale1DCode
+//@   requires bc != nil && boundsOK(bc) && 1 <= width && width <= 1073741824 && 1 <= height && height <= 1073741824
+//@   ensures (result1 != nil) <==> (width < srcW(bc))
+//@   ensures (result1 != nil) <==> (result0 == nil)
+//@   ensures result1 == nil ==> isScaled(result0) && fresh(result0) && sb(result0).wrapped == bc
+//@   ensures result1 == nil ==> (typeis(result0, "*intCSscaledBC") <==> implements(bc, "BarcodeIntCS"))
+//@   ensures result1 == nil ==> sb(result0).rect.Min.X == 0 && sb(result0).rect.Min.Y == 0 && sb(result0).rect.Max.X == width && sb(result0).rect.Max.Y == height
+//@   ensures result1 == nil ==> sb(result0).wrapperFunc.fn == funcid("scale1DCode$1")
+//@   ensures result1 == nil ==> captured(sb(result0).wrapperFunc, "scale1DCode$1", "bc") == bc && captured(sb(result0).wrapperFunc, "scale1DCode$1", "fill") == fill
+//@   ensures result1 == nil ==> captured(sb(result0).wrapperFunc, "scale1DCode$1", "orgWidth") == srcW(bc)
+//@   ensures#factor result1 == nil ==> captured(sb(result0).wrapperFunc, "scale1DCode$1", "factor") == width / srcW(bc)
+//@   ensures#offsets result1 == nil ==> captured(sb(result0).wrapperFunc, "scale1DCode$1", "offsetX") == (width - srcW(bc) * (width / srcW(bc))) / 2
+
+// what a caller of ScaleWithFill learns about the scaledBarcode object s behind the result
+//@ define f2(s *scaledBarcode) int = captured(s.wrapperFunc, "scale2DCode$1", "factor")
+//@ define ox2(s *scaledBarcode) int = captured(s.wrapperFunc, "scale2DCode$1", "offsetX")
+//@ define oy2(s *scaledBarcode) int = captured(s.wrapperFunc, "scale2DCode$1", "offsetY")
+//@ define f1(s *scaledBarcode) int = captured(s.wrapperFunc, "scale1DCode$1", "factor")
+//@ define ox1(s *scaledBarcode) int = captured(s.wrapperFunc, "scale1DCode$1", "offsetX")
+
+//@ define sbLike2D(s *scaledBarcode, bc Barcode, width int, height int, fill color.Color) bool =
+//@      s != nil && s.wrapped == bc
+//@   && s.rect.Min.X == 0 && s.rect.Min.Y == 0 && s.rect.Max.X == width && s.rect.Max.Y == height
+//@   && s.wrapperFunc.fn == funcid("scale2DCode$1")
+//@   && captured(s.wrapperFunc, "scale2DCode$1", "bc") == bc && captured(s.wrapperFunc, "scale2DCode$1", "fill") == fill
+//@   && captured(s.wrapperFunc, "scale2DCode$1", "orgWidth") == srcW(bc) && captured(s.wrapperFunc, "scale2DCode$1", "orgHeight") == srcH(bc)
+//@   && f2(s) >= 1 && f2(s) * srcW(bc) <= width && f2(s) * srcH(bc) <= height
+//@   && ((f2(s) + 1) * srcW(bc) > width || (f2(s) + 1) * srcH(bc) > height)
+//@   && ox2(s) == (width - srcW(bc) * f2(s)) / 2 && oy2(s) == (height - srcH(bc) * f2(s)) / 2
+
+//@ define sbLike1D(s *scaledBarcode, bc Barcode, width int, height int, fill color.Color) bool =
+//@      s != nil && s.wrapped == bc
+//@   && s.rect.Min.X == 0 && s.rect.Min.Y == 0 && s.rect.Max.X == width && s.rect.Max.Y == height
+//@   && s.wrapperFunc.fn == funcid("scale1DCode$1")
+//@   && captured(s.wrapperFunc, "scale1DCode$1", "bc") == bc && captured(s.wrapperFunc, "scale1DCode$1", "fill") == fill
+//@   && captured(s.wrapperFunc, "scale1DCode$1", "orgWidth") == srcW(bc)
+//@   && f1(s) == width / srcW(bc) && ox1(s) == (width - srcW(bc) * (width / srcW(bc))) / 2
+
+//@ define scaledLike2D(r Barcode, bc Barcode, width int, height int, fill color.Color) bool =
+//@      isScaled(r) && fresh(r) && (typeis(r, "*intCSscaledBC") <==> implements(bc, "BarcodeIntCS")) && sbLike2D(sb(r), bc, width, height, fill)
+//@ define scaledLike1D(r Barcode, bc Barcode, width int, height int, fill color.Color) bool =
+//@      isScaled(r) && fresh(r) && (typeis(r, "*intCSscaledBC") <==> implements(bc, "BarcodeIntCS")) && sbLike1D(sb(r), bc, width, height, fill)
+
+//@ func ScaleWithFill
+//@   requires bc != nil && boundsOK(bc) && 1 <= width && width <= 1073741824 && 1 <= height && height <= 1073741824
+//@   ensures (result1 != nil) <==> (result0 == nil)
+//@   ensures bc.Metadata().Dimensions == 1 ==> ((result1 != nil) <==> width < srcW(bc))
+//@   ensures bc.Metadata().Dimensions == 2 ==> ((result1 != nil) <==> (width < srcW(bc) || height < srcH(bc)))
+//@   ensures bc.Metadata().Dimensions != 1 && bc.Metadata().Dimensions != 2 ==> result1 != nil
+//@   ensures result1 == nil && bc.Metadata().Dimensions == 1 ==> scaledLike1D(result0, bc, width, height, fill)
+//@   ensures result1 == nil && bc.Metadata().Dimensions == 2 ==> scaledLike2D(result0, bc, width, height, fill)
+
+// default fill: the source's background if it exposes a colour scheme, else white
+//@ func Scale
+//@   requires bc != nil && boundsOK(bc) && 1 <= width && width <= 1073741824 && 1 <= height && height <= 1073741824
+//@   ensures (result1 != nil) <==> (result0 == nil)
+//@   ensures bc.Metadata().Dimensions == 1 ==> ((result1 != nil) <==> width < srcW(bc))
+//@   ensures bc.Metadata().Dimensions == 2 ==> ((result1 != nil) <==> (width < srcW(bc) || height < srcH(bc)))
+//@   ensures result1 == nil && bc.Metadata().Dimensions == 1 && implements(bc, "BarcodeColor") ==> scaledLike1D(result0, bc, width, height, bc.ColorScheme().Background)
+//@   ensures result1 == nil && bc.Metadata().Dimensions == 2 && implements(bc, "BarcodeColor") ==> scaledLike2D(result0, bc, width, height, bc.ColorScheme().Background)
+//@   ensures result1 == nil && bc.Metadata().Dimensions == 1 && !implements(bc, "BarcodeColor") ==> scaledLike1D(result0, bc, width, height, color.White)
+//@   ensures result1 == nil && bc.Metadata().Dimensions == 2 && !implements(bc, "BarcodeColor") ==> scaledLike2D(result0, bc, width, height, color.White)
+
+// ---- accessors of the scaled barcode: pass-through, bounds, pixels
+//@ func (*scaledBarcode).Content
+//@   requires bc != nil && bc.wrapped != nil
+//@   ensures result == bc.wrapped.Content()
+//@ func (*scaledBarcode).Metadata
+//@   requires bc != nil && bc.wrapped != nil
+//@   ensures result == bc.wrapped.Metadata()
+//@ func (*scaledBarcode).ColorModel
+//@   requires bc != nil && bc.wrapped != nil
+//@   ensures result == bc.wrapped.ColorModel()
+//@ func (*scaledBarcode).Bounds
+//@   requires bc != nil
+//@   ensures result == bc.rect
+//@ func (*intCSscaledBC).CheckSum
+//@   requires bc != nil && bc.scaledBarcode.wrapped != nil
+//@   ensures implements(bc.scaledBarcode.wrapped, "BarcodeIntCS") ==> result == bc.scaledBarcode.wrapped.CheckSum()
+
+//@ func (*scaledBarcode).At
+//@   requires bc != nil && (bc.wrapperFunc.fn == funcid("scale2DCode$1") || bc.wrapperFunc.fn == funcid("scale1DCode$1"))
+//@   requires bc.wrapperFunc.fn == funcid("scale2DCode$1") ==> captured(bc.wrapperFunc, "scale2DCode$1", "factor") >= 1 && captured(bc.wrapperFunc, "scale2DCode$1", "offsetX") >= 0
+//@        && captured(bc.wrapperFunc, "scale2DCode$1", "offsetY") >= 0 && captured(bc.wrapperFunc, "scale2DCode$1", "bc") != nil
+//@   requires bc.wrapperFunc.fn == funcid("scale1DCode$1") ==> captured(bc.wrapperFunc, "scale1DCode$1", "factor") >= 1 && captured(bc.wrapperFunc, "scale1DCode$1", "offsetX") >= 0
+//@        && captured(bc.wrapperFunc, "scale1DCode$1", "bc") != nil
+//@   ensures#in2 bc.wrapperFunc.fn == funcid("scale2DCode$1")
+//@        && !(x < captured(bc.wrapperFunc, "scale2DCode$1", "offsetX") || y < captured(bc.wrapperFunc, "scale2DCode$1", "offsetY")
+//@           || (x - captured(bc.wrapperFunc, "scale2DCode$1", "offsetX")) / captured(bc.wrapperFunc, "scale2DCode$1", "factor") >= captured(bc.wrapperFunc, "scale2DCode$1", "orgWidth")
+//@           || (y - captured(bc.wrapperFunc, "scale2DCode$1", "offsetY")) / captured(bc.wrapperFunc, "scale2DCode$1", "factor") >= captured(bc.wrapperFunc, "scale2DCode$1", "orgHeight"))
+//@        ==> result == captured(bc.wrapperFunc, "scale2DCode$1", "bc").At((x - captured(bc.wrapperFunc, "scale2DCode$1", "offsetX")) / captured(bc.wrapperFunc, "scale2DCode$1", "factor"),
+//@                                                                       (y - captured(bc.wrapperFunc, "scale2DCode$1", "offsetY")) / captured(bc.wrapperFunc, "scale2DCode$1", "factor"))
+//@   ensures#out2 bc.wrapperFunc.fn == funcid("scale2DCode$1")
+//@        && (x < captured(bc.wrapperFunc, "scale2DCode$1", "offsetX") || y < captured(bc.wrapperFunc, "scale2DCode$1", "offsetY")
+//@           || (x - captured(bc.wrapperFunc, "scale2DCode$1", "offsetX")) / captured(bc.wrapperFunc, "scale2DCode$1", "factor") >= captured(bc.wrapperFunc, "scale2DCode$1", "orgWidth")
+//@           || (y - captured(bc.wrapperFunc, "scale2DCode$1", "offsetY")) / captured(bc.wrapperFunc, "scale2DCode$1", "factor") >= captured(bc.wrapperFunc, "scale2DCode$1", "orgHeight"))
+//@        ==> result == captured(bc.wrapperFunc, "scale2DCode$1", "fill")
+//@   ensures#in1 bc.wrapperFunc.fn == funcid("scale1DCode$1")
+//@        && !(x < captured(bc.wrapperFunc, "scale1DCode$1", "offsetX")
+//@           || (x - captured(bc.wrapperFunc, "scale1DCode$1", "offsetX")) / captured(bc.wrapperFunc, "scale1DCode$1", "factor") >= captured(bc.wrapperFunc, "scale1DCode$1", "orgWidth"))
+//@        ==> result == captured(bc.wrapperFunc, "scale1DCode$1", "bc").At((x - captured(bc.wrapperFunc, "scale1DCode$1", "offsetX")) / captured(bc.wrapperFunc, "scale1DCode$1", "factor"), 0)
+//@   ensures#out1 bc.wrapperFunc.fn == funcid("scale1DCode$1")
+//@        && (x < captured(bc.wrapperFunc, "scale1DCode$1", "offsetX")
+//@           || (x - captured(bc.wrapperFunc, "scale1DCode$1", "offsetX")) / captured(bc.wrapperFunc, "scale1DCode$1", "factor") >= captured(bc.wrapperFunc, "scale1DCode$1", "orgWidth"))
+//@        ==> result == captured(bc.wrapperFunc, "scale1DCode$1", "fill")
+
+// ---- client-style lemmas (bodies in zz_lemmas_verif.go): the contracts above compose to the statement of C09
+//@ func lemmaDivMul
+//@   requires 0 <= i && i <= 1073741824 && 1 <= f && f <= 1073741824 && 0 <= d && d < f
+//@   ensures result == i && (i*f + d) / f == i
+
+//@ func lemmaBlock2D
+//@   requires bc != nil && boundsOK(bc) && 1 <= width && width <= 1073741824 && 1 <= height && height <= 1073741824
+//@   requires sbLike2D(s, bc, width, height, fill) && f == f2(s) && ox == ox2(s) && oy == oy2(s)
+//@   requires 0 <= i && i < srcW(bc) && 0 <= j && j < srcH(bc) && 0 <= dx && dx < f && 0 <= dy && dy < f
+//@   ensures result == bc.At(i, j)
+//@   ensures 0 <= ox + i*f + dx && ox + i*f + dx < width && 0 <= oy + j*f + dy && oy + j*f + dy < height
+//@   ensures 0 <= (width - srcW(bc)*f - ox) - ox && (width - srcW(bc)*f - ox) - ox <= 1
+//@   ensures 0 <= (height - srcH(bc)*f - oy) - oy && (height - srcH(bc)*f - oy) - oy <= 1
+
+//@ func lemmaFill2D
+//@   requires bc != nil && boundsOK(bc) && 1 <= width && width <= 1073741824 && 1 <= height && height <= 1073741824
+//@   requires sbLike2D(s, bc, width, height, fill) && 0 <= x && x < width && 0 <= y && y < height
+//@   requires !(ox2(s) <= x && x < ox2(s) + srcW(bc)*f2(s) && oy2(s) <= y && y < oy2(s) + srcH(bc)*f2(s))
+//@   ensures result == fill
+
+//@ func lemmaBlock1D
+//@   requires bc != nil && boundsOK(bc) && 1 <= width && width <= 1073741824 && 1 <= height && height <= 1073741824
+//@   requires width >= srcW(bc) && sbLike1D(s, bc, width, height, fill) && f == f1(s) && ox == ox1(s)
+//@   requires 0 <= i && i < srcW(bc) && 0 <= dx && dx < f && 0 <= y && y < height
+//@   ensures result == bc.At(i, 0)
+//@   ensures f >= 1 && f * srcW(bc) <= width && (f+1) * srcW(bc) > width
+//@   ensures 0 <= ox + i*f + dx && ox + i*f + dx < width
+//@   ensures 0 <= (width - srcW(bc)*f - ox) - ox && (width - srcW(bc)*f - ox) - ox <= 1
+
+//@ func lemmaFill1D
+//@   requires bc != nil && boundsOK(bc) && 1 <= width && width <= 1073741824 && 1 <= height && height <= 1073741824
+//@   requires width >= srcW(bc) && sbLike1D(s, bc, width, height, fill) && 0 <= x && x < width
+//@   requires !(ox1(s) <= x && x < ox1(s) + srcW(bc)*f1(s))
+//@   ensures result == fill
